@@ -50,6 +50,10 @@ ASSUMPTIONS = [
     'joins: up to 0.5 + 0.71 px at sharp spikes of holes - over-clipping, never a leak); feature info: 1.01 px both '
     'ways; PNG colour tolerance 8 levels, palette colours >= 100 levels apart; for JPEG *responses* pixels within 3 px '
     'of any limit boundary are not judged and the tolerance is 48 levels (calibrated: <= 27 at quality 90)',
+    'authorized: none on a WMS operation is judged like a partial result that permits nothing (403 when a resolved layer was '
+    'requested by name, otherwise nothing of the layers may result; MapProxy answers pure group requests with a blank 200, '
+    'which doc/auth.rst describes as 403 - counted in notes, not a violation of the statement); on tile services it must be 403; '
+    'unauthenticated must be 401 everywhere',
     'blank = alpha 0, or the requested bgcolor on opaque output (both accepted where the statement says "transparent (or '
     'background colour)")',
     'layers requested below a layer that MapProxy may treat as opaque (direct WMS source with transparent: false) may be '
@@ -86,10 +90,11 @@ GRIDS = {
                                spec='EPSG3857', levels=(5, 12)),
     'GLOBAL_GEODETIC': dict(bbox=(-180.0, -90.0, 180.0, 90.0), span0=360.0, origin='sw', srs='EPSG:4326',
                             n0=(1, 0.5), profile=True, spec='EPSG4326', levels=(5, 12)),
-    'utm32': dict(bbox=(0.0, 4000000.0, 1024000.0, 6048000.0), span0=1024000.0, origin='nw', srs='EPSG:25832',
-                  n0=(1, 2), profile=False, spec='EPSG25832', levels=(1, 8)),
+    # covers every request frame the generator can produce (lon 7-11, lat 47-54, <= 256 px of <= 952 m) with margin
+    'utm32': dict(bbox=(0.0, 3000000.0, 1024000.0, 7096000.0), span0=1024000.0, origin='nw', srs='EPSG:25832',
+                  n0=(1, 4), profile=False, spec='EPSG25832', levels=(1, 8)),
 }
-UTM_GRID_CONF = {'srs': 'EPSG:25832', 'bbox': [0, 4000000, 1024000, 6048000], 'origin': 'nw',
+UTM_GRID_CONF = {'srs': 'EPSG:25832', 'bbox': [0, 3000000, 1024000, 7096000], 'origin': 'nw',
                  'res': [4000.0 / 2 ** i for i in range(10)]}
 WMS_SRS = ['EPSG:3857', 'EPSG:4326', 'EPSG:25832']
 LIMIT_SRS = ['EPSG:3857', 'EPSG:4326', 'EPSG:25832', 'EPSG:900913']
@@ -1484,7 +1489,7 @@ def check_case(case, stats):
 
 def search_shard(shard, nshards, seed, tier):
     st_ = core.Stats()
-    total = 800 if tier == 'quick' else 48000
+    total = 800 if tier == 'quick' else 32000
     n = max(1, total // nshards)
     core.hyp_search(cases(), check_case, st_, max_examples=n, seed=seed, shrink=False)
     return st_
